@@ -129,7 +129,7 @@ def digest_array(arr: np.ndarray) -> str:
 
 def row_bytes_be(arr: np.ndarray, r: int) -> bytes:
     """Big-endian image of row r by pure byte manipulation (no numpy conversion)."""
-    row = np.ascontiguousarray(arr[r])
+    row = np.ascontiguousarray(arr[r:r + 1])      # a slice keeps the dtype's byte order (a scalar would not)
     raw = row.tobytes()     # C order, array's own byte order
     k = arr.dtype.itemsize
     bo = arr.dtype.byteorder
